@@ -263,7 +263,11 @@ func c11ReadBack(fs *FSResults, graph, id string) ([]uint32, bool) {
 }
 
 func c11Wait(fs *FSResults, graph, id string) bool {
-	for i := 0; i < 200; i++ {
+	limit := 200
+	if !vSymbolic() {
+		limit = 15000 // natively a yield is a 1 ms sleep and a padded row takes seconds to spool
+	}
+	for i := 0; i < limit; i++ {
 		st, err := fs.Status(graph, id)
 		if err == nil && st.State == gripql.JobState_COMPLETE {
 			return true
